@@ -31,6 +31,7 @@ func stream(n int) []byte {
 // ---- terminal errors of a source ----
 
 var errX = errors.New("verif: injected source error")
+var errAfter = errors.New("verif: a different error returned by a source that was read again after it had failed")
 
 var termErrs = []error{io.EOF, io.ErrUnexpectedEOF, errX, fmt.Errorf("ctx: %w", errX)}
 var termErrNames = []string{"io.EOF", "io.ErrUnexpectedEOF", "errX", "wrapped(errX)"}
@@ -38,14 +39,19 @@ var termErrNames = []string{"io.EOF", "io.ErrUnexpectedEOF", "errX", "wrapped(er
 // ---- EnvReader: harness-owned io.Reader (fault and fragmentation model, DESIGN 4.3) ----
 
 type EnvCfg struct {
-	Chunk       int  `json:"chunk"`         // max bytes per Read (0 = as much as fits)
-	ErrWithLast bool `json:"err_with_last"` // final data delivered together with the error
-	ZeroReads   int  `json:"zero_reads"`    // (0,nil) answers before every data read
-	Err         int  `json:"err"`           // index into termErrs
+	Chunk       int  `json:"chunk"`               // max bytes per Read (0 = as much as fits)
+	ErrWithLast bool `json:"err_with_last"`       // final data delivered together with the error
+	ZeroReads   int  `json:"zero_reads"`          // (0,nil) answers before every data read
+	Err         int  `json:"err"`                 // index into termErrs
+	AfterErr    int  `json:"after_err,omitempty"` // what a Read AFTER the terminal error answers: 0 the same error again, 1 bogus data (0x7b...) then another error
 }
 
 func (e EnvCfg) String() string {
-	return fmt.Sprintf("chunk=%d errWithLast=%v zeroReads=%d err=%s", e.Chunk, e.ErrWithLast, e.ZeroReads, termErrNames[e.Err])
+	s := fmt.Sprintf("chunk=%d errWithLast=%v zeroReads=%d err=%s", e.Chunk, e.ErrWithLast, e.ZeroReads, termErrNames[e.Err])
+	if e.AfterErr != 0 {
+		s += " after-error=bogus-data-then-other-error"
+	}
+	return s
 }
 
 type EnvReader struct {
@@ -83,6 +89,20 @@ func (e *EnvReader) Read(p []byte) (int, error) {
 	e.Calls++
 	if e.ErrReturned {
 		e.AfterErr++
+		if e.Cfg.AfterErr == 1 {
+			// a source is under no obligation to repeat its error: a reader that asks again gets garbage
+			if e.AfterErr == 1 && len(p) > 0 {
+				n := len(p)
+				if n > 64 {
+					n = 64
+				}
+				for i := 0; i < n; i++ {
+					p[i] = 0x7b
+				}
+				return n, nil
+			}
+			return 0, errAfter
+		}
 		return 0, termErrs[e.Cfg.Err]
 	}
 	dev := 0
